@@ -255,8 +255,11 @@ func C17RacePass() {
 				a := asm.New().Push(uint64(0x10000 + g<<8 + i)).Op(asm.POP) // PUSH3 x POP: bytes 0-4
 				a.Push(8).Op(asm.JUMP, asm.JUMPDEST)                         // 5-8
 				a.Push(1).Push(15).Op(asm.JUMPI, asm.INVALID, asm.JUMPDEST)  // 9-15
+				// CREATE2 and KECCAK256 (address derivation and hashing must not go through state shared by instances)
+				a.Push32(gen.Pattern).Push(0).Op(asm.MSTORE).Push(uint64(g<<8+i)).Push(32).Push(0).Push(0).Op(asm.CREATE2, asm.POP)
+				a.Push(32).Push(0).Op(asm.KECCAK256, asm.POP)
 				a.Push(0).Push(0).Op(asm.RETURN)
-				cs := gen.StdCase(world.Shanghai, a.Bytes(), "call", 100000)
+				cs := gen.StdCase(world.Shanghai, a.Bytes(), "call", 300000)
 				env := world.NewA(cs, world.AOpts{})
 				if obs := env.Invoke(cs); obs.Err != "" {
 					panic("race pass: jump program failed: " + obs.Err)
